@@ -2,6 +2,7 @@
 #   scenarios -> real executions (harness) -> projected trace -> TLC trace validation -> verdicts.
 import json, os, re, time
 from common import *
+from concurrent.futures import ThreadPoolExecutor
 
 
 def last_session_only(cs, si):
@@ -25,12 +26,40 @@ def kf_match(kf, raw):
     return True
 
 
-def validate_cases(rep, wd, module, cfg, per_case_lines, label="trace", max_rejects=5, constants=None):
+def validate_cases(rep, wd, module, cfg, per_case_lines, label="trace", max_rejects=5, constants=None, shard_lines=6000):
     """per_case_lines: dict case_id -> list of (line, raw).  Validates the concatenation with the trace
     spec; every rejected case is cut out and the rest re-validated, so the whole recording is examined.
+    Long recordings are split by case into shards validated by parallel TLC processes (a trace spec starts
+    afresh at every case line, so the verdict per case does not depend on the split).
     Returns dict case_id -> (line_index_in_case, line, raw) for rejected cases."""
-    rejected = {}
     order = [c for c in per_case_lines if per_case_lines[c]]
+    total = sum(len(per_case_lines[c]) for c in order)
+    nsh = max(1, min(NCPU, 8, total // max(1, shard_lines)))
+    if nsh <= 1:
+        return _validate_shard(rep, wd, module, cfg, per_case_lines, order, label, max_rejects, constants)
+    groups = [[] for _ in range(nsh)]
+    load = [0] * nsh
+    for c in order:                       # greedy balance, deterministic
+        k = load.index(min(load))
+        groups[k].append(c)
+        load[k] += len(per_case_lines[c])
+    rep.last_devs = []
+    rejected = {}
+    with ThreadPoolExecutor(max_workers=nsh) as ex:
+        futs = [ex.submit(_validate_shard, rep, "%s-%d" % (wd, k), module, cfg, per_case_lines, g, label, max_rejects, constants, True)
+                for k, g in enumerate(groups) if g]
+        devs = []
+        for f in futs:
+            rj, dv = f.result()
+            rejected.update(rj)
+            devs.extend(dv)
+    rep.last_devs = devs
+    return rejected
+
+
+def _validate_shard(rep, wd, module, cfg, per_case_lines, order, label, max_rejects, constants, want_devs=False):
+    rejected = {}
+    devs = []
     prepare_spec_dir(wd, constants)
     while True:
         lines, owner = [], []
@@ -44,11 +73,11 @@ def validate_cases(rep, wd, module, cfg, per_case_lines, label="trace", max_reje
             break
         ok, consumed, r = validate_trace(wd, module, lines, cfg=cfg)
         # deviation actions taken are printed by the trace spec as <<"DEV", id, line>>
-        rep.last_devs = []
+        devs = []
         for m in re.finditer(r'<<"DEV", "([^"]+)", (\d+)>>', r.out):
             li = int(m.group(2)) - 1
             if 0 <= li < len(owner) and (not ok and li >= consumed) is False:
-                rep.last_devs.append((m.group(1), owner[li][0]))
+                devs.append((m.group(1), owner[li][0]))
         if ok:
             rep.add_tlc(label, r)
             break
@@ -62,6 +91,9 @@ def validate_cases(rep, wd, module, cfg, per_case_lines, label="trace", max_reje
         if len(rejected) >= max_rejects:
             # validate the remaining cases one batch further is pointless: enough to report
             break
+    if want_devs:
+        return rejected, devs
+    rep.last_devs = devs
     return rejected
 
 
